@@ -181,6 +181,8 @@ def check_numeric(array):
     if isinstance(array, np.ndarray):
         if not isinstance(array.flat[0], np.number):
             raise TypeError('Incorrect data type of arrays.')
+        if np.iscomplexobj(array):
+            raise TypeError('Complex numbers are not supported.')
     elif not isinstance(array, Real):
         raise TypeError('Incorrect data type of arrays.')
 
